@@ -12,15 +12,15 @@ CHECKS = {
          "trusts afkverif/refproto.py (written from the protocol guide, self-tested, shares no code with afkak); snappy not installed", "3/C04"),
  "C05": ("codec", "exploration",
          "differential monitoring: independent reference encoder -> afkak decoders; round-trip law",
-         "Generated well-formed responses of every supported API/version and message sets (both magics, gzip incl. multi-member streams, nesting, empty wrappers, wrappers stamped LogAppendTime) are produced by the independent encoder and decoded by afkak; equality of every field, plus encode/decode identity and afkak-encode -> reference-decode agreement.",
+         "Generated well-formed responses of every supported API/version and message sets (both magics, gzip incl. multi-member streams, nesting, empty wrappers, wrappers stamped LogAppendTime, the same format-1 wrapper appended twice at different offsets) are produced by the independent encoder and decoded by afkak; equality of every field, plus encode/decode identity and afkak-encode -> reference-decode agreement.",
          "trusts refproto encoders; nested wrappers only in magic 0; snappy not installed", "3/C05"),
  "C12": ("codec", "fault_enumeration",
          "fault injection on encoded data (all bit flips, bursts, truncations) with exception/step/allocation monitors",
-         "Per generated message set every single-bit flip of every top-level message and every truncation point is enumerated, bursts <= 32 bits are sampled, and arbitrary/mutated/hostile byte strings are fed to every decoder under a sys.monitoring line counter and tracemalloc; exhaustive per set, sets sampled. Also alterations of a message inside a compressed wrapper whose own CRC is valid (re-compressed, re-wrapped), and fetch-size growth cases at the consumer.",
+         "Per generated message set every single-bit flip of every top-level message and every truncation point is enumerated, bursts <= 32 bits are sampled, and arbitrary/mutated/hostile byte strings are fed to every decoder under a sys.monitoring line counter and tracemalloc; exhaustive per set, sets sampled. Also alterations of a message inside a compressed wrapper whose own CRC is valid (re-compressed, re-wrapped), and fetch-size growth cases at the consumer; hostile values in two count/length fields at once (every field pair of tiny valid responses, random position pairs).",
          "CRC-32 burst-detection theory for the oracle; linear resource bound constants 60 lines/byte and 64 B/byte (+fixed) calibrated at >20x the valid-input maximum", "3/C12"),
  "C15": ("pure", "exploration",
          "runtime oracle over real assignor + independent decoder; small configuration space enumerated",
-         "Generated member sets / subscriptions / partition maps are run through the real join_group_protocols -> generate_assignments -> decode_assignment in several permutations; exact cover, subscribed-only, balance, permutation invariance, decode=assign checked on each; all configurations up to 3 members x 2 topics x 3 partitions enumerated in thorough. Also on live groups (the C16 monitor's assignment clauses): the same leader assigning again after partitions were added, a failed partition lookup by the leader (an empty assignment is a violation), and each member creating exactly the consumers it was assigned; a partition that is leaderless, or a topic that expands (first announced with an error code), when the second assignment is computed.",
+         "Generated member sets / subscriptions / partition maps are run through the real join_group_protocols -> generate_assignments -> decode_assignment in several permutations; exact cover, subscribed-only, balance, permutation invariance, decode=assign checked on each; all configurations up to 3 members x 2 topics x 3 partitions enumerated in thorough. Also on live groups (the C16 monitor's assignment clauses): the same leader assigning again after partitions were added, a failed partition lookup by the leader (an empty assignment is a violation), and each member creating exactly the consumers it was assigned; subscription lists that repeat a topic; a partition that is leaderless, or a topic that expands (first announced with an error code), when the second assignment is computed.",
          "every member subscribes to >= 1 topic; partition map complete after the _NeedTopicPartitions retry", "3/C15"),
  "C18": ("pure", "exploration",
          "differential monitoring against Java (JVM), C and Python reference Murmur2; window-fairness monitor over selection histories",
@@ -31,11 +31,11 @@ CHECKS = {
 CHECKS.update({
  "C06": ("brokerclient", "exploration",
          "history monitor at the client boundary (one recorder per request Deferred + AlreadyCalledError trap) against the server's frame log; differential re-run for non-interference",
-         "The real _KafkaBrokerClient/KafkaProtocol and KafkaBootstrapProtocol run over an in-memory network against a scripted raw server (late, duplicate, swapped, unsolicited and oversize frames; arbitrary chunking; cuts; cancels, disconnect, close, also from inside completion callbacks). Each request must fire exactly once with the first delivered frame bearing its id, or with CancelledError/ClientError for the right reason; removing unsolicited frames from the plan must not change any outcome; a request pending although the server answered everything and accepted every connection for 60 s is a violation. Also requests the transport cannot write (must fail once, siblings untouched) and request-table situations generated on purpose: a connection lost while cancelled entries sit among live ones, close() failing unsent requests whose callbacks cancel siblings or close again.",
+         "The real _KafkaBrokerClient/KafkaProtocol and KafkaBootstrapProtocol run over an in-memory network against a scripted raw server (late, duplicate, swapped, unsolicited and oversize frames; arbitrary chunking; cuts; cancels, disconnect, close, also from inside completion callbacks). Each request must fire exactly once with the first delivered frame bearing its id, or with CancelledError/ClientError for the right reason; removing unsolicited frames from the plan must not change any outcome; a request pending although the server answered everything and accepted every connection for 60 s is a violation. Also requests the transport cannot write (must fail once, siblings untouched) and request-table situations generated on purpose: a connection lost while cancelled entries sit among live ones, close() failing unsent requests whose callbacks cancel siblings or close again, a request / cancel / close() in the reactor turn right behind disconnect(), a queue flushed on connect whose no-reply requests cancel or disconnect from their callbacks, correlation ids at the edges of int32 and frames too short to carry one.",
          "simnet models Twisted TCP transport semantics (no dataReceived after loseConnection, writes in the same turn still flushed); bootstrap protocol exempt from non-interference by design", "3/C06"),
  "C10": ("brokerclient", "fault_enumeration",
          "online trace checker replayed over the unified event log (issues, cancels, fires, attempts, per-connection writes, losses, quiescent points); cut points enumerated",
-         "Same engine as C06. A model of 'live' requests is updated event by event: every write must be a live request, once per connection, re-sent ones in issue order; at every quiescent point a live request implies a connection carrying it, an attempt, or a back-off whose length equals the injected policy f(n); nothing is dialled when idle or after close; close's Deferred fires once after the connection is gone. Every byte offset of the first connection in both directions, cuts while connecting and during back-off 1..3 are enumerated on small scripts.",
+         "Same engine as C06. A model of 'live' requests is updated event by event: every write must be a live request, once per connection, re-sent ones in issue order; at every quiescent point a live request implies a connection carrying it, an attempt, or a back-off whose length equals the injected policy f(n); nothing is dialled when idle or after close; close's Deferred fires once after the connection is gone. Every byte offset of the first connection in both directions, cuts while connecting and during back-off 1..3 are enumerated on small scripts, also under configured back-offs of 16..62 s; the hand-shaped request-table situations of C06 run under this monitor too.",
          "order is required among re-sent requests only (what the statement says); a running back-off loop is allowed to continue after its last request is cancelled", "3/C10"),
 })
 
@@ -49,14 +49,14 @@ CHECKS.update({
 CHECKS.update({
  "C11": ("client-e2e", "exploration",
          "timing monitor at the wrapped _make_request_to_broker boundary on a virtual clock + timer-count invariant at every quiescent point + differential re-run without late replies",
-         "Requests of mixed kinds (incl. JoinGroup with its 35 s minimum) are answered promptly, late by drawn factors of the timeout (0.5 .. 3), or never, with brokers whose connections never establish and with disconnect-on-timeout on/off. Every per-broker request must resolve by issued+T, exactly at issued+T with RequestTimedOutError when no reply was delivered in time, at delivery time otherwise; armed timeout timers must equal outstanding requests after every event; removing late replies must change nothing; the silent connection is dropped at the timeout and its other requests reach the broker again. Also: every request that reaches a broker client (brokerclient.makeRequest watched) either has a timed record or resolves within the timeout; version discovery retrying under one correlation id with late replies. The timeout in force is derived from the request kind (JoinGroup: max(client timeout, 35 s)).",
+         "Requests of mixed kinds (incl. JoinGroup with its 35 s minimum) are answered promptly, late by drawn factors of the timeout (0.5 .. 3), or never, with brokers whose connections never establish and with disconnect-on-timeout on/off. Every per-broker request must resolve by issued+T, exactly at issued+T with RequestTimedOutError when no reply was delivered in time, at delivery time otherwise; armed timeout timers must equal outstanding requests after every event; removing late replies must change nothing; the silent connection is dropped at the timeout and its other requests reach the broker again. Also: every request that reaches a broker client (brokerclient.makeRequest watched) either has a timed record or resolves within the timeout; version discovery retrying under one correlation id with late replies. The timeout in force is derived from the request kind (JoinGroup: max(client timeout, 35 s)); the join is sent by a real Coordinator whose session timeout is drawn.",
          "virtual time: verdicts never depend on wall clock; exact ties between reply and timer accept either outcome", "3/C11"),
 })
 
 CHECKS.update({
  "C20": ("client-e2e", "exploration",
          "fault/close-point injection: close() injected after a drawn event index (stratified by client state seen in a close-free baseline run, also from inside completion callbacks) with monitors on operation Deferreds, simnet's attempt and write logs, and the reactor's delayed calls",
-         "A generated client workload is run once without close() to count events and to survey the states it passes through, then re-run with close() at drawn points. Checked: operations pending at close have failed by the end of that reactor event, new operations fail, no connection attempt or write after the close() call, the close Deferred fires exactly once and only when simnet shows no open connection or pending attempt, metadata maps are empty right after and at the end, no afkak delayed call survives. Workloads include callbacks that cancel an earlier operation when a later one fails, connection attempts that fail synchronously and overlapping broker-removal rounds. Two genuine defects are listed in known_findings.json by mechanism; any other violation exits 1.",
+         "A generated client workload is run once without close() to count events and to survey the states it passes through, then re-run with close() at drawn points. Checked: operations pending at close have failed by the end of that reactor event, new operations fail, no connection attempt or write after the close() call, the close Deferred fires exactly once and only when simnet shows no open connection or pending attempt, metadata maps are empty right after and at the end, no afkak delayed call survives. Workloads include callbacks that cancel an earlier operation when a later one fails, connection attempts that fail synchronously (cancelled ones fail with ConnectingCancelledError or CancelledError, as real endpoints do) and overlapping broker-removal rounds; a broker-agnostic request that still has untried brokers at close() must fail by the end of that reactor event. Two genuine defects are listed in known_findings.json by mechanism; any other violation exits 1.",
          "one client per world; double close() not generated; the listed bootstrap finding covers a late reply naming no broker (a merged late reply that names brokers is reported)", "3/C20"),
 })
 
@@ -74,22 +74,22 @@ CHECKS.update({
 CHECKS.update({
  "C19": ("producer-e2e", "exploration",
          "reference-model monitor: the queue is re-computed from caller-side events only and compared with every batch the producer takes (hook on Producer._send_batch) and with its counters at every quiescent point",
-         "Batching scenarios on warm metadata and zero latency: every batch taken must be exactly the queued, not-cancelled sends and be justified by a met count/byte threshold or a timer tick with nothing in flight; at every quiescent point the waiting counters equal the queue and a met threshold with nothing in flight is a missed dispatch; with a time limit nothing waits more than one period beyond the in-flight batch; cancel before dispatch keeps the messages off the wire, cancel/stop fail with a cancellation error at once, and nothing is taken or written after stop().",
+         "Batching scenarios on warm metadata and zero latency: every batch taken must be exactly the queued, not-cancelled sends and be justified by a met count/byte threshold or a timer tick with nothing in flight; at every quiescent point the waiting counters equal the queue and a met threshold with nothing in flight is a missed dispatch; once a batch has resolved every send dispatched in it and not cancelled has its result (sends cancelled in flight beside siblings sharing their partition); the same message sent twice with one copy withdrawn before dispatch: copies on the wire = copies not withdrawn; with a time limit nothing waits more than one period beyond the in-flight batch; cancel before dispatch keeps the messages off the wire, cancel/stop fail with a cancellation error at once, and nothing is taken or written after stop().",
          "reads Producer._batch_reqs/_waitingMsgCount/_waitingByteCount/_batch_send_d (missing attribute => inconclusive)", "3/C19"),
 })
 
 CHECKS.update({
  "C02": ("consumer-e2e", "exploration",
          "history checker: processor invocations (offset, key, value; overlap) against the partition log generated as data, with segment boundaries derived from what the cluster answered",
-         "The real Consumer -> KafkaClient stack consumes logs generated as data (compaction gaps, plain and gzip batches in both message formats, oversized records, log start > 0, appends, retention) from numeric/earliest/latest/committed positions, with sync/async/chained processors, commits, stop+restart, and faults on every request kind plus leader moves. Delivered offsets must equal the log from the resolved position, strictly increasing without omission or repeat, with the stored key/value; never overlapping; discontinuities only at a reset-policy firing or a restart; a healthy idle consumer with records left is a violation. Also fetch replies damaged in transit (good prefix, bad last message) and a restart of the same consumer after a shutdown whose commit was refused. One more defect found there was fixed in /repo.",
+         "The real Consumer -> KafkaClient stack consumes logs generated as data (compaction gaps, plain and gzip batches in both message formats, oversized records, log start > 0, appends, retention) from numeric/earliest/latest/committed positions, with sync/async/chained processors, commits, stop+restart, and faults on every request kind plus leader moves. Delivered offsets must equal the log from the resolved position, strictly increasing without omission or repeat, with the stored key/value; never overlapping; discontinuities only at a reset-policy firing or a restart; a healthy idle consumer with records left is a violation, and so is one that re-sends one fetch hundreds of times in zero virtual time. Logs also hold compressed wrappers with nothing left in them, preferably in front of a record that does not fit the buffer. Also fetch replies damaged in transit (good prefix, bad last message) and a restart of the same consumer after a shutdown whose commit was refused. One more defect found there was fixed in /repo.",
          "unique (key,value) per offset; resolved start = the cluster's own ListOffsets/OffsetFetch answer; slow-but-active is recorded, not judged", "3/C02"),
  "C13": ("consumer-e2e", "exploration",
          "stop-point injection: stop()/shutdown() after a drawn reactor event of each situation surveyed in a stop-free baseline run (also from inside the processor and from the start errback), then restart; monitors on processor calls, client writes, delayed calls and the start/shutdown Deferreds",
-         "After stop() returned: no processor call, no Fetch/ListOffsets/OffsetFetch/OffsetCommit frame written until the restart, no delayed call bound to the consumer; stop() returns normally; the start Deferred fires exactly once with the offset (or with an earlier unrecoverable failure, never with the echo of stop's own cancellations); shutdown's Deferred fires once, no processor call begins after it was requested, committed == processed == coordinator's stored offset on success; a restarted consumer delivers again. Ten defects found here were fixed in /repo; one is listed as known. Also shutdown() pre-empted by stop() and shutdown() whose commit the coordinator refuses, at surveyed points, each followed by a restart.",
+         "After stop() returned: no processor call, no Fetch/ListOffsets/OffsetFetch/OffsetCommit frame written until the restart, no delayed call bound to the consumer; stop() returns normally; the start Deferred fires exactly once with the offset (or with an earlier unrecoverable failure, never with the echo of stop's own cancellations); shutdown's Deferred fires once, no processor call begins after it was requested, committed == processed == coordinator's stored offset on success; a restarted consumer delivers again (also when restarted at an EARLIER explicit offset and shut down a second time: that shutdown commits what the second run processed). Ten defects found here were fixed in /repo; one is listed as known. Also shutdown() pre-empted by stop() and shutdown() whose commit the coordinator refuses, at surveyed points, each followed by a restart.",
          "situations classified from Consumer attributes (stratification only); the C02 stream oracle stays on", "3/C13"),
  "C08": ("client-e2e", "exploration",
          "online monitor wrapped around the real client's metadata merge (harness-side): every metadata response, as recorded by the simulated cluster and paired by correlation id, is compared with the client's view right after it was merged, across generated histories of cluster mutations, refreshes and requests; connect hook on the simulated network for dialled addresses; wire inspection after not-leader / unknown-partition answers and failed sends; producer + consumers under finite fault sequences with bounded-recovery oracle",
-         "After each metadata response: partitions, leader (node, host, port) per partition, topic error and broker addresses of every covered topic equal the response, no stale partition entry survives, topics not in the response are unchanged, and after a full refresh that lists brokers every broker client for a missing node is gone from client.clients, its connection was asked to close (or its pending connect cancelled) within that reactor event and it never dials again; every later dial of a broker client goes to the address last advertised for its node. After a not-leader/unknown-partition answer (also behind another error in the same response list) or a failed send (also acks=0) a metadata request covering the topic is on the wire before the next request for it, which then goes where that answer says. After any generated finite sequence of leader moves, broker restarts and address changes: sends issued later succeed within max_req_attempts produce attempts, every acknowledged send is in the log, and each consumer's deliveries equal its partition log within 40 virtual seconds. One defect found here was fixed in /repo.",
+         "After each metadata response: partitions, leader (node, host, port) per partition, topic error and broker addresses of every covered topic equal the response, no stale partition entry survives, topics not in the response are unchanged, and after a full refresh that lists brokers every broker client for a missing node is gone from client.clients, its connection was asked to close (or its pending connect cancelled) within that reactor event and it never dials again; every later dial of a broker client goes to the address last advertised for its node. After a not-leader/unknown-partition answer (also behind another error in the same response list) or a failed send (also acks=0) a metadata request covering the topic is on the wire before the next request for it, which then goes where that answer says. After any generated finite sequence of leader moves, broker restarts and address changes: sends issued later succeed within max_req_attempts produce attempts, every acknowledged send is in the log, and each consumer's deliveries equal its partition log within 40 virtual seconds. Also the group's coordinator as cached routing: after a failed send to it the next group request is preceded by a lookup and follows it. One defect found here was fixed in /repo.",
          "a response never names a leader missing from its own broker list; topics absent from a full refresh are not judged; one bootstrap address stays reachable", "3/C08"),
  "C16": ("group-e2e", "exploration",
          "online trace monitor over 1-4 real ConsumerGroup members (own clients) against the simulated group coordinator: every request stamped where the member's client issues it, every reply where it reaches the client, every partition consumer where afkak._group constructs it (recording subclass installed from the harness), every processor call; membership histories with joins, stops, silent kills, evictions, coordinator moves, partition growth, rejected commits and slow processors",
@@ -97,7 +97,7 @@ CHECKS.update({
          "told-generation = SyncGroup reply delivered; eviction notice = Join/Sync/Heartbeat/OffsetCommit answered 22/25 or a group request timing out; a heartbeat between stop() and the leave is tolerated", "3/C16"),
  "C17": ("group-e2e", "fault_enumeration",
          "fault words (request kind x occurrence x failure kind: every group error code, time-out, disconnect, malformed reply, late answer, processor failure, an undecodable foreign subscription) injected on a live group member's coordinator lookup, metadata loads, JoinGroup, SyncGroup, Heartbeat and its consumers' OffsetFetch/OffsetCommit; all singles, pairs enumerated (thorough) or sampled (quick), longer words and overlapping-error templates; an online monitor evaluates a never-idle predicate over requests outstanding, the injected reactor's delayed calls, pending connects and heartbeats on the wire at every quiescent point",
-         "While started and not stopped and with the start Deferred unfired, at every quiescent point something attributable to the member is pending: a lookup/join/sync/leave request, a delayed call of its join_and_sync, heartbeats on the wire while the last membership outcome it was told is a success, shutdown work of its partition consumers, a client retry timer or connection attempt (a violation needs the predicate false for 8 virtual seconds without a single lookup/group request). On a zero-latency network the rejoin timer armed by a clean error is due after a documented back-off (retry for 27/16/15/22/25, fatal for a timed-out group request, initial for a failed lookup). A processor failure fails the start Deferred. 12 virtual seconds after the last fault the coordinator lists the member in a Stable group and its assigned partitions are being fetched. One defect was fixed in /repo (Kafka errors escaping the join), its non-Kafka half is a known finding.",
+         "While started and not stopped and with the start Deferred unfired, at every quiescent point something attributable to the member is pending: a lookup/join/sync/leave request, a delayed call of its join_and_sync, heartbeats on the wire while the last membership outcome it was told is a success, shutdown work of its partition consumers, a client retry timer or connection attempt (a violation needs the predicate false for 8 virtual seconds without a single lookup/group request). On a zero-latency network the rejoin timer armed by a clean error is due after a documented back-off (retry for 27/16/15/22/25, fatal for a timed-out group request, initial for a failed lookup). A processor failure fails the start Deferred. 12 virtual seconds after the last fault the coordinator lists the member in a Stable group and its assigned partitions are being fetched. Templates include a commit answered late and refused while the rebalance waits for that consumer, and a timed-out heartbeat during a held rejoin followed by another rebalance. One defect was fixed in /repo (Kafka errors escaping the join), its non-Kafka half is a known finding.",
          "idle is judged from outside (see ASSUMPTIONS in the evidence); a malformed reply may legitimately either fail start() or cause a rejoin", "3/C17"),
  "C03": ("consumer-e2e", "fault_enumeration",
          "offline checker over the recorded commit history (every OffsetCommit the coordinator received vs. the processor-completion events before it) plus crash-point enumeration: the process is killed after the k-th client write for every k (sampled above 60 writes), a fresh consumer resumes from OFFSET_COMMITTED and its first delivery is compared with the coordinator's stored offset",
